@@ -747,6 +747,12 @@ theorem client_progress {b : BState} (hg : LiveInv b) {i : Nat} (hw : HasWork b 
     refine ⟨{ pool := [0] }, ?_⟩
     simp only [clientAct, hpc, hp]
     exact ⟨_, rfl⟩
+  | mgetFlag outer ks acc iter =>
+    -- a load of the shutdown flag waits for nobody
+    left
+    refine ⟨{}, ?_⟩
+    simp only [clientAct, hpc]
+    exact ⟨_, rfl⟩
 
 /-- **The dichotomy.**  Every thread that has work to do is enabled for some oracle, or waits for another thread. -/
 theorem thread_progress {b : BState} (hg : LiveInv b) (t : Tid) (hw : HasWork b t) :
